@@ -27,6 +27,10 @@ var c10Programs = []string{
 	"var x\nvar y\nvar z\neval x = (y = 1001) or (z = 1002)\nprint x\nprint y\nprint z\n",
 	"def t {\n f = 1001\n f = f and 1002\n g = (f = 1003) or f\n}\n",
 	"print -1001 and +1002 or - - 1003\n",
+	"print not (1001 and 1002 <= 1003)\n",
+	"print not (1001 or 1002 != 1003)\n",
+	"def t {\n f = not (1001 and 1002 >= 1003)\n g = not (1001 == 1002) and not (1002 <= 1003)\n}\n",
+	"var x = not (1001 or 1002) == not 1003\nprint x\n",
 }
 
 // stackEffect gives (pops, pushes) of an instruction per the recorded format.
@@ -238,7 +242,26 @@ func C10_Growth() {
 func C10_Wide() {
 	n := []int{239, 240, 241, 242, 255, 256, 300}[verif.Choice("n", 7)]
 	src := ""
-	switch verif.Choice("what", 3) {
+	what := verif.Choice("what", 5)
+	if what == 3 { // constant indices across the 2287/2288 varint boundary
+		n = []int{2286, 2287, 2288, 2289}[n%4]
+		what = 2
+	}
+	if what == 4 { // a skipped operand longer than 255 bytes (two-byte jump distance)
+		terms := []int{80, 100, 128, 130, 200, 300, 1000}[n%7]
+		src = "print 0 and (1"
+		for i := 0; i < terms; i++ {
+			src += "+" + itoa(2+i%7)
+		}
+		src += ")\nprint 1 or (2"
+		for i := 0; i < terms; i++ {
+			src += "*" + itoa(1+i%3)
+		}
+		src += ")\n"
+		what = 9
+	}
+	switch what {
+	case 9:
 	case 0: // locals
 		for i := 0; i < n; i++ {
 			src += "var v" + itoa(i) + " = " + itoa(i) + "\n"
